@@ -151,6 +151,8 @@ STRINGS = ["a", "b", "m", "Business", "Private", "Government", "High", "Low", "M
 
 def lit_text(l):
     k, v = l
+    if k == "in":
+        return v            # an output entry / default output entry that is not a literal: the name of an input expression
     if k == "n":
         return v
     if k == "s":
@@ -288,6 +290,8 @@ def wire(v):
 
 def lit_value(l):
     k, v = l
+    if k == "in":
+        return ("input-ref", v)      # only for grouping tables by shape; the reference evaluates resolve_refs(T, tuple)
     if k == "n":
         return Decimal(v)
     if k in TEMPORAL:
@@ -298,6 +302,26 @@ def lit_value(l):
 def input_value(jv):
     """JSON form of an input value in a case (['n',text] | ['s',text] | ['b',bool] | None) -> python value."""
     return None if jv is None else lit_value(jv)
+
+
+def resolve_refs(T, tup):
+    """The table with every output entry / default output entry that names an input replaced by that input's value in this tuple
+    (None when such an input is null in the tuple: then nothing is asserted). Tables without such entries are returned as they are."""
+    by_name = {c["expr"]: v for c, v in zip(T["inputs"], tup)}
+    hit = [False]
+
+    def res(l):
+        if l is not None and l[0] == "in":
+            hit[0] = True
+            return by_name.get(l[1])
+        return l
+    outs = [dict(c, default=res(c.get("default")) if c.get("default") else None) for c in T["outputs"]]
+    rules = [dict(r, out=[res(o) for o in r["out"]]) for r in T["rules"]]
+    if not hit[0]:
+        return T
+    if any(c["default"] is None and o.get("default") for c, o in zip(outs, T["outputs"])) or any(o is None for r in rules for o in r["out"]):
+        return None
+    return dict(T, outputs=outs, rules=rules)
 
 
 def context_of(T, tup):
@@ -527,6 +551,18 @@ def gen_table(src, max_inputs=4, max_outputs=3, min_rules=0, max_rules=8, max_an
             # the same number spelled differently (7 / 7.0 / 7.00): equal as a value for ANY, priorities and aggregators
             outs = [["n", o[1] + (".0" if "." not in o[1] else "0")] if o[0] == "n" else o for o in outs]
         rules.append({"in": ins, "out": outs, "ann": [gen_annotation_text(src) for _ in range(na)]})
+    if not drawable and src.bool(0.3):
+        # output entries and default output entries need not be literals: some of them name an input expression of the output's kind
+        for j, c in enumerate(outputs):
+            same = [i["expr"] for i in inputs if i["kind"] == c["kind"]]
+            if not same or c["values"]:
+                continue
+            if c["default"] is not None and src.bool(0.6):
+                c["default"] = ["in", src.choice(same)]
+            if rules and src.bool(0.4):
+                r = rules[src.int(0, len(rules) - 1)]
+                r["out"] = list(r["out"])
+                r["out"][j] = ["in", src.choice(same)]
     T = {"hp": hp,
          "name": src.choice(TITLES) if src.bool(0.5) else None,
          "label": src.choice(TITLES + OUTPUT_NAMES) if src.bool(0.6) else None,
